@@ -100,6 +100,7 @@ class AsyncIOClient(ABC):
         self._process_queue_task = asyncio.create_task(self._process_queue())  # Track the process queue task
         self._receive_task = None  # Track the receive loop task
         self._reconnect_task = None  # Track the pending reconnect (at most one at a time)
+        self._last_fault = 0.0  # loop time of the latest fault report
         self._seed_task = None  # Track the network map seeding task
 
 
@@ -300,6 +301,7 @@ class AsyncIOClient(ABC):
         """
         if self._state == State.CLOSED:
             return  # close() was called from the status callback that reported the fault: nothing to reconnect
+        self._last_fault = asyncio.get_running_loop().time()
         if self._reconnect_task is None or self._reconnect_task.done():
             self._reconnect_task = asyncio.create_task(self._reconnect())
 
@@ -309,13 +311,18 @@ class AsyncIOClient(ABC):
         A gateway that accepts connections and drops them right away must not be reconnected to in a
         tight loop: the first attempt waits as long as the first retry of connect() does.
         """
-        await asyncio.sleep(0.5)
-        await self.connect()
-        while self._state == State.DISCONNECTED:
-            # connect() returned at once because another connect() call was running, and that one has given up since
-            # (cancelled by its caller, e.g. a timeout): keep trying, with the same minimum delay
+        while True:
             await asyncio.sleep(0.5)
+            if asyncio.get_running_loop().time() - self._last_fault < 0.5:
+                continue  # another fault has been reported meanwhile: its half second is not over yet
             await self.connect()
+            # connect() may have returned at once because another connect() call was running; that one may be cancelled
+            # by its caller (a timeout) - before it succeeded, or after it reported CONNECTED and before it started the
+            # receive loop.  Keep trying for as long as nobody reads from a link.
+            if self._state == State.CLOSED:
+                return
+            if self._state == State.CONNECTED and self._receive_task is not None and not self._receive_task.done():
+                return
         
     async def send(self, nmea2000Message: NMEA2000Message):
         """Send a NMEA2000 message to the gateway.
